@@ -886,3 +886,92 @@ def s_build_graph_scope(ctx):
 
 SCENARIOS.append(Scenario("C18.builder.build_graph_scope", s_build_graph_scope, F("build_graph", GB + "__init__", GB + "push_module"),
                           trusted=["_split_optional_inputs, ir.Graph (construction only)"]))
+
+
+def s_inliner_instantiate(ctx):
+    """_inliner.instantiate (the body of call_inline): formal parameter k is bound to actual argument k — to None when the argument is None
+    (an omitted optional input) AND when it is not supplied at all (a trailing optional input): an unbound formal would be read as an
+    outer-scope value that nothing defines; too many arguments are refused; the returned outputs are the images of the graph outputs;
+    the prefix goes on node names and node output names only."""
+    import onnx_ir as ir
+    from onnxscript._internal import _inliner
+    from onnx_ir import _cloner
+    I = Interp(ctx)
+    m = 1 + ctx.choose(3, "formal inputs")
+    n = ctx.choose(m + 2, "actual inputs")
+    formals = []
+    for k in range(m):
+        v = SObj(ir.Value, f"formal{k}")
+        v.fields["name"] = f"f{k}"
+        formals.append(v)
+    actuals = []
+    for k in range(n):
+        if ctx.choose(2, f"actual {k} is None") == 1:
+            actuals.append(None)
+        else:
+            v = SObj(ir.Value, f"actual{k}")
+            v.fields["name"] = f"a{k}"
+            actuals.append(v)
+    body_out = SObj(ir.Value, "body_out")
+    body_out.fields["name"] = "t"
+    node = SObj(ir.Node, "body_node")
+    node.fields.update(name="n0", outputs=[body_out])
+    out_is_formal = ctx.choose(2, "the graph returns its first input directly") == 1
+    g = SObj(ir.Graph, "fn_graph")
+    g.fields.update(inputs=list(formals), outputs=[formals[0] if out_is_formal else body_out])
+
+    def g_iter(interp, slf):
+        return [node]
+    I.models[ir.Graph.__iter__] = g_iter
+    made = {}
+    image = SObj(ir.Value, "image_of_body_out")
+    image.fields["name"] = "t"
+    cloned = SObj(ir.Node, "cloned")
+    cloned.fields.update(name="n0", outputs=[image])
+
+    def m_cloner(interp, **kw):
+        made.update(kw)
+        c = SObj(_cloner.Cloner, "cloner")
+
+        def clone_node(nd):
+            raise AssertionError
+
+        def m_clone(interp2, nd):
+            # what the onnx_ir Cloner does that matters here: the image of each output is recorded in value_map, post_process runs
+            kw["value_map"][body_out] = image
+            interp2.call(kw["post_process"], [cloned])
+            return cloned
+        interp.models[clone_node] = m_clone
+        c.fields["clone_node"] = clone_node
+        return c
+    I.models[_cloner.Cloner] = m_cloner
+    prefix = "pfx/" if ctx.choose(2, "prefix given") == 1 else ""
+    CLI = "C18: 'Inlining a function gives the same results as calling it' — call() leaves an omitted input of the call node empty"
+    try:
+        r = I.call(_inliner.instantiate, [g, actuals, {}], {"prefix": prefix})
+    except PyRaise as e:
+        ctx.check("C18.inliner.instantiate.raises_only_for_too_many_arguments", n > m and isinstance(e.exc, ValueError), CLI)
+        return
+    ctx.check("C18.inliner.instantiate.too_many_arguments_refused", n <= m, CLI)
+    if n > m:
+        return
+    vm = made.get("value_map")
+    ok = isinstance(vm, dict)
+    ctx.check("C18.inliner.instantiate.cloner_gets_a_value_map", ok, CLI)
+    if not ok:
+        return
+    for k in range(m):
+        want = actuals[k] if k < n else None
+        bound = any(key is formals[k] for key in vm)
+        got = [vm[key] for key in vm if key is formals[k]]
+        ctx.check("C18.inliner.instantiate.every_formal_is_bound_to_its_actual_or_to_None_when_omitted", bound and got[0] is want, CLI)
+    nodes, outs = r
+    ctx.check("C18.inliner.instantiate.returns_the_cloned_nodes_in_order", list(nodes) == [cloned], CLI)
+    ctx.check("C18.inliner.instantiate.outputs_are_the_images_of_the_graph_outputs", list(outs) == [(actuals[0] if n > 0 else None) if out_is_formal else image], CLI)
+    ctx.check("C18.inliner.instantiate.prefix_on_node_and_output_names_only", cloned.fields["name"] == prefix + "n0" and image.fields["name"] == prefix + "t"
+              and all(a is None or a.fields["name"] == f"a{k}" for k, a in enumerate(actuals)), CL_UNIQ)
+
+
+SCENARIOS.append(Scenario("C18.inliner.instantiate", s_inliner_instantiate, [("onnxscript/_internal/_inliner.py", "instantiate"), ("onnxscript/_internal/_inliner.py", "instantiate.rename")],
+                          kind="bounded", bound="1-3 formal inputs, 0 to m+1 actual arguments (each a value or None), one body node; names symbolic-free",
+                          trusted=["onnx_ir._cloner.Cloner: clone_node maps inputs through value_map (None = input not provided), records the images of outputs in it and calls post_process"]))
